@@ -408,14 +408,15 @@ def thread_consume(R, test_exe, rounds):
         return
     kinds = {}
     for l in lines:
-        m = re.match(r"TC (\d+) (\w+) face=(\d+) tok=(\d+) match=(\d) res=([\w-]+) drained=(\d+) frame=(\S+)", l)
+        m = re.match(r"TC (\d+) ([\w:-]+) face=(\d+) tok=(\d+) match=(\d) res=([\w-]+) drained=(\d+) frame=(\S+)", l)
         if not m:
             continue
-        kinds[m.group(2)] = kinds.get(m.group(2), 0) + 1
+        kind = m.group(2).split(":")[0]
+        kinds[kind] = kinds.get(kind, 0) + 1
         if m.group(6) != "ok":
-            where = "handleIncomingFrame" if m.group(6) == "panic-frame" else "the forwarding thread (processIncoming%s)" % ("Data" if m.group(2) == "data" else "Interest")
-            R.oracle_failure("%s:%s" % (m.group(6), m.group(2)),
-                             "%s panicked on a well-formed LP frame carrying a valid %s with a PIT token of %s byte(s)" % (where, m.group(2), m.group(4)),
+            where = "handleIncomingFrame" if m.group(6) == "panic-frame" else "the forwarding thread (processIncoming%s)" % ("Data" if kind.startswith("data") else "Interest")
+            R.oracle_failure("%s:%s" % (m.group(6), kind.split("-")[0]),
+                             "%s panicked on a well-formed LP frame carrying a decodable %s with a PIT token of %s byte(s)" % (where, m.group(2), m.group(4)),
                              dict(line=l[:3000], harness="facelp.test -test.run TestThreadConsume"))
             break
     R.coverage.setdefault("distribution", {})["thread_consume"] = kinds
